@@ -287,7 +287,8 @@ def c12_shift_post(out, tracer, eps, drv, replay_of):
     out["shift_pairs_with_outages"] = 0
     for n in range(max(6, len(eps) // 6)):
         d, feats = gen.gen_instance(rng, rng.choice(["transport", "buffers", "full", "full"]))
-        K = rng.choice([7, 100, 1000])
+        # negative offsets too: the shifted run then starts below zero and some event may land exactly on time 0
+        K = rng.choice([7, 100, 1000, -3, -4, -5, -6, -9, -12])
         runs = []
         acts = None
         cfgkw = {"early": rng.random() < 0.6, "trunc_active": False}
